@@ -169,9 +169,12 @@ META = {
     "c13": ("get_data_type_attrs / get_member_attrs (attribute front-ends)", "an instruction written #[i(a)], #[o2o(i(a))] or grouped in one #[o2o(..)] list gives the same expansion / the same diagnostics",
             "24 trait instructions + ghosts/where_clause/child_parents x 11 companions x {separate, grouped, both orders}; 19 member instructions x 5 type heads x {bare, wrapped, pairs grouped}; 8 variant instructions x 3 heads"),
     "c12": ("end to end (front-end, validate, block builders included)", "a shortcut instruction gives the same impl items as the basic instructions it abbreviates, at type and member level",
-            "12 shortcuts x 4 type shapes; x 4 member argument forms x 2 heads; ghost / ghosts"),
+            "12 shortcuts x 4 type shapes; x 4 member argument forms x 2 heads; the 6 infallible shortcuts in front of a child field inside #[parent(..)] x 3 argument forms x 2 heads; ghost / ghosts"),
     "c06": ("end to end (struct_init_block call sites included)", "every impl item of the input projected to counterpart A occurs unchanged in the joint expansion",
-            "two counterparts A and B on a generic struct: field 0 with one of 9 instruction forms dedicated to A x 9 dedicated to B x with / without a default instruction, field 1 with one of 5 forms per side (rename, bare parent, parameterised parent, ghost_ref), 5 settings of dedicated / default ghosts, where_clause and child_parents; projected to A and to B: 40,500 pairs; plus 8 hand-written pairs (enum ghosts, literal / pattern, type_hint, ghosts with child path)"),
+            "two counterparts A and B on a generic struct (A and B both converting both ways, or A only receiving and B only giving): field 0 with one of 9 instruction forms dedicated to A x 9 dedicated to B x with / without a default instruction, field 1 with one of 5 forms per side (rename, bare parent, parameterised parent, ghost_ref), 5 settings of dedicated / default ghosts, where_clause and child_parents; projected to A and to B: 52,650 pairs; a joint input that is rejected although every projection is accepted is a violation; plus 8 hand-written pairs (enum ghosts, literal / pattern, type_hint, ghosts with child path)"),
+    "c05": ("the call sites of the lookups in expand.rs (render_struct_line, render_enum_line, variant_destruct_block, struct_init_block_inner): which kind, fallibility and counterpart they pass",
+            "adding a member instruction that is shadowed (a later step of the chain, or a default one next to a dedicated one) or not applicable (other kind, other ownership ghost) never changes the impl, written before or after the one that takes effect",
+            "12 conversions x 3 member contexts (named struct field, enum variant field, tuple struct field) x every member instruction that can serve the conversion (21 names x default / dedicated) as the one in effect x every other of the 21 names (default and dedicated) that is shadowed or inapplicable, plus ghosts of the other ownership, before and after: 28,992 pairs"),
     "c14": ("get_data_type_attrs / Field::multiple_from_syn / Variant::multiple_from_syn (repeat state threaded through closures)",
             "an input using repeat / skip_repeat / stop_repeat expands exactly like the same input with the repetition written out",
             "all valid placements of {none, own instruction, repeat, skip_repeat, stop_repeat, stop_repeat+repeat} over 5 struct fields x 5 carried instruction sets x 5 category filters; over 4 enum-variant fields x 4 variant shapes x permeating or not x 3 filters; over 4 variants x 4 filters x a field-level repeat block (permeating or not) opened inside any one of the variants; over 4 trait instructions of one name (plus one of another name) x 4 setups x 5 parameter filters"),
@@ -327,6 +330,9 @@ def _run(prop, tier):
     if prop == "C06":
         v, rep = metamorphic("c06", prop)
         return {"violations": v, "report": {"projection_end_to_end": rep}}
+    if prop == "C05":
+        v, rep = metamorphic("c05", prop)
+        return {"violations": v, "report": {"shadowed_and_inapplicable_instructions": rep}}
     if prop == "C14":
         v, rep = metamorphic("c14", prop)
         return {"violations": v, "report": {"repeat_written_out": rep}}
